@@ -21,13 +21,14 @@ def H_cm(cm, N, pt4):
     return float(np.real(v))
 
 
-def check_cm(ctx, label, sysm, L, N, n_dirs, n_sec):
+def check_cm(ctx, label, sysm, L, N, n_dirs, n_sec, redegree=False):
     rng = ctx.rng
     mu = float(sysm.mu)
     pt = sysm.get_libration_point(L)
     gam = float(pt.dynamics.gamma)
     EL = ref.energy(np.concatenate([np.asarray(pt.position, dtype=float), np.zeros(3)]), mu)
-    cm = pt.get_center_manifold(degree=N)
+    from hiten.system.center import CenterManifold
+    cm = CenterManifold(pt, N)          # a fresh object (the point's own memo of centre manifolds is C20's subject)
     cm.compute()
     ctx.case("center_manifold", [label, N], nontrivial=True)
     radii = [0.32, 0.16, 0.08, 0.04]
@@ -66,6 +67,40 @@ def check_cm(ctx, label, sysm, L, N, n_dirs, n_sec):
             ctx.check(e[-1] <= 10 * floor or e[0] >= 1e-2, name, wit)
         # absolute size at the smallest radius: must be tiny (a constant offset or O(r) defect would show here)
         ctx.check(e[-1] <= 1e-6, name[:2] + "discrepancy vanishes as the amplitude decreases", wit)
+    # history: raise the degree of the SAME (already used) object; the conversions must then have the accuracy of the new degree
+    if redegree:
+        N2 = N + 1
+        cm.degree = N2
+        e_rt2, e_en2 = [], []
+        for _ in range(max(3, n_dirs // 2)):
+            d = rng.normal(size=4)
+            d /= np.linalg.norm(d)
+            a, b = [], []
+            for r in radii:
+                p4 = r * d
+                syn = np.asarray(cm.to_synodic(p4), dtype=float)
+                back = np.asarray(cm.to_cm(syn), dtype=float)
+                a.append(np.abs(back - p4).max())
+                b.append(abs((ref.energy(syn, mu) - EL) / gam ** 2 - H_cm(cm, N2, p4)))
+            e_rt2.append(a)
+            e_en2.append(b)
+        e_rt2 = np.array(e_rt2).max(axis=0)
+        e_en2 = np.array(e_en2).max(axis=0)
+        ctx.case("center_manifold:degree-raised-on-used-object", [label, N, N2], nontrivial=True)
+        for name, e, floor in (("A2:after raising the degree of a used object the round trip has the accuracy of the new degree", e_rt2, 1e-13),
+                               ("B2:after raising the degree of a used object the energy identity has the accuracy of the new degree", e_en2, 1e-13 / gam ** 2 + 1e-14)):
+            rate = None
+            for i in range(len(radii) - 1):
+                if e[i] > 1e2 * floor and e[i + 1] > 5 * floor and e[i] < 1e-2:
+                    rate = np.log2(e[i] / e[i + 1])
+            wit = {"cm": label, "degree_before": N, "degree_after": N2, "errors": e.tolist(), "radii": radii, "rate": rate}
+            if rate is not None:
+                ctx.stat(f"order_deficit[{name[:2]}]", (N2 + 1) - rate)
+                ctx.check(rate >= N2 + 1 - 0.7, name, wit)
+            else:
+                ctx.check(e[-1] <= 10 * floor, name, wit)
+        N = N2
+        e_en = e_en2
     # section points at prescribed energy
     for _ in range(n_sec):
         sec = ["q2", "p2", "q3", "p3"][int(rng.integers(4))]
@@ -120,7 +155,7 @@ def run(ctx):
 
         def one():
             sysm = systems.setdefault(name, System.from_mu(float(name[3:])) if name.startswith("mu=") else System.from_bodies(*name.split("-")))
-            check_cm(ctx, f"{name}:L{L}", sysm, L, N, ctx.pick(5, 20), ctx.pick(8, 60))
+            check_cm(ctx, f"{name}:L{L}", sysm, L, N, ctx.pick(5, 20), ctx.pick(8, 60), redegree=(k % 3 == 0 and N <= 6))
         guarded(ctx, f"{name}:L{L}:N{N}", one)
     one_ = ctx.nshards > 1
     ctx.require("A:conclusive rate", 1 if one_ else 2)
